@@ -145,6 +145,7 @@ type AbsVal struct {
 	marksAt      map[ssa.Value]AbsVal // vSlice: every live mark when the slice was taken
 	// vAtomLen
 	atom string
+	emsg string // an error value built by NewError/NewErrorLexer: its message (kept until the value is stored in the error field)
 	// vTuple
 	elems []AbsVal
 	// vFunc
